@@ -295,15 +295,24 @@ func (w *world) setupFx(n int) (func(int), func()) {
 	for i := 0; i < n; i++ {
 		q := &fxCall{}
 		q.w, q.id, q.d = w, i, drawTimeout(t)
-		q.cl = genCaller(t, q.d)
+		scale := q.d
+		exhausted := t.Chance(1, 8)
+		if exhausted {
+			// an exhausted budget (timeout computed as time.Until(deadline)): now+timeout is
+			// not in the future, the call has to return at once whatever the work does
+			q.d = []time.Duration{0, -time.Millisecond, -time.Hour}[t.Intn(3)]
+			r.Probe("fx-timeout-not-positive")
+		}
+		q.cl = genCaller(t, scale)
 		q.withCtx = q.cl.dl > 0 || q.cl.cancelAt >= 0 || t.Bool()
 		if t.Chance(2, 3) {
-			q.pre = time.Duration(t.Range(0, 1000)) * q.d / 1000
+			q.pre = time.Duration(t.Range(0, 1000)) * scale / 1000
 		}
 		if t.Chance(1, 3) {
 			q.err = fmt.Errorf("work-error-%d", i)
 		}
-		q.wk = &work{w: w, id: i, script: genScript(t, i, scriptOpts{gate: true, maxSteps: 6, effective: q.cl.effective(q.d)})}
+		eff := q.cl.effective(scale)
+		q.wk = &work{w: w, id: i, script: genScript(t, i, scriptOpts{gate: true, maxSteps: 6, effective: eff})}
 		w.works = append(w.works, q.wk)
 		calls[i] = q
 		sample = append(sample, fmt.Sprintf("call%d timeout=%v %v think=%v script=[%s] returns(%v)", i, q.d, q.cl, q.pre, scriptString(q.wk.script), q.err))
